@@ -240,8 +240,9 @@ impl<const N: u32> PxE1<{ N }> {
                     if reg_z != (N - 2) {
                         bit_n_plus_one =
                             ((0x_8000_0000_0000_0000_u64 >> (N - reg_z - 1)) & frac64_z) != 0;
-                        bits_more =
-                            ((0x_7FFF_FFFF_FFFF_FFFF_u64 >> (N - reg_z - 1)) & frac64_z) != 0;
+                        if ((0x_7FFF_FFFF_FFFF_FFFF_u64 >> (N - reg_z - 1)) & frac64_z) != 0 {
+                            bits_more = true;
+                        }
                         frac_z &= Self::mask();
                     } else if frac64_z > 0 {
                         frac_z = 0;
